@@ -132,6 +132,10 @@ func (set *TemplateSet) BanFilter(name string) error {
 	return nil
 }
 
+// errTemplateNotFound is what resolveTemplate reports when no loader has the name
+// (as opposed to a template that was found but could not be read).
+var errTemplateNotFound = errors.New("unable to resolve template")
+
 func (set *TemplateSet) resolveTemplate(tpl *Template, path string) (name string, loader TemplateLoader, fd io.Reader, err error) {
 	// iterate over loaders until we appear to have a valid template
 	for _, loader = range set.loaders {
@@ -142,7 +146,7 @@ func (set *TemplateSet) resolveTemplate(tpl *Template, path string) (name string
 		}
 	}
 
-	return path, nil, nil, fmt.Errorf("unable to resolve template")
+	return path, nil, nil, errTemplateNotFound
 }
 
 // CleanCache cleans the template cache. If filenames is not empty,
